@@ -239,7 +239,8 @@ def key_of(it, st, k):
     return strip_named(it.deref(st, k))
 
 def eff(st, rec):
-    st.effects.append(rec + (st.stack,))
+    # (op, ns, key, value, result-term, site, stack, number of facts held when the effect happened)
+    st.effects.append(rec + (st.stack, len(st.facts)))
 
 def m_map_load(it, st, args, info):
     ns = map_ns(it, st, args[0]); key = key_of(it, st, args[2])
@@ -311,7 +312,7 @@ def as_resp(r):
     return ('resp', (('opaque_base', r),), (('opaque_base', r),))
 def m_add_message(it, st, args, info):
     r = as_resp(it.deref(st, args[0]))
-    return ('resp', r[1] + (('msg', strip_named(it.deref(st, args[1])), info['site'], st.stack, info['targs']),), r[2])
+    return ('resp', r[1] + (('msg', strip_named(it.deref(st, args[1])), info['site'], st.stack, info['targs'], len(st.facts)),), r[2])
 def m_add_submessage(it, st, args, info):
     r = as_resp(it.deref(st, args[0]))
     return ('resp', r[1] + (('submsg', strip_named(it.deref(st, args[1])), info['site'], st.stack, info['targs']),), r[2])
